@@ -47,8 +47,13 @@ fn build_timing(tier: &str) -> Timing {
         for &db in &DELAYS {
             for &p in &PROCS {
                 let total = df + db + p;
-                let bases = [0u64, 1, 1 << 47, MAX48 - 3 * total - 100, MAX48 - 1];
+                // the last base makes the master's clock still fit 48 bits at the instant of the
+                // write while clock + propagation delay does not (non-LAN): must be a failure
+                let bases = [0u64, 1, 1 << 47, MAX48 - 3 * total - 100, MAX48 - 1, MAX48 - total - (df + db) / 4];
                 for (bi, &base) in bases.iter().enumerate() {
+                    if bi == 5 && df + db < 4 {
+                        continue;
+                    }
                     for proc_ in 0..3 {
                         for v in [Variant::Honest, Variant::DishonestDelay, Variant::NeedTimePersists] {
                             if v == Variant::DishonestDelay && proc_ != 1 {
@@ -57,7 +62,7 @@ fn build_timing(tier: &str) -> Timing {
                             if v != Variant::Honest && (bi != 0 || (tier == "quick" && (df > 7 || db > 7))) {
                                 continue;
                             }
-                            if tier == "quick" && bi >= 2 && !(df <= 2 && db <= 2 && p <= 1) && !(df == 65536 && db == 7 && p == 2) {
+                            if tier == "quick" && bi >= 2 && !(df <= 2 && db <= 2 && p <= 1) && !(df == 65536 && db == 7 && p == 2) && !(bi == 5 && df <= 7 && db <= 7 && p <= 1) {
                                 continue;
                             }
                             cases.push((df, db, p, base, proc_, v, 0));
@@ -430,7 +435,7 @@ impl CaseSpace for Repeated {
 
 struct Replies;
 
-const REPLY_VARIANTS: usize = 5; // ideal, unexpected objects, IIN2 error, NEED_TIME in final reply, empty where an object is expected
+const REPLY_VARIANTS: usize = 7; // ideal, unexpected objects, IIN2 error, NEED_TIME in final reply, empty where an object is expected, two delay objects in one header, a second delay header
 
 impl CaseSpace for Replies {
     fn name(&self) -> String {
@@ -478,9 +483,24 @@ impl CaseSpace for Replies {
                             applied = true;
                         }
                     }
-                    _ => {
+                    4 => {
                         if req[1] == fc::DELAY_MEASURE {
                             r.truncate(4);
+                            applied = true;
+                        }
+                    }
+                    5 => {
+                        // one g52v2 header carrying two delay objects
+                        if req[1] == fc::DELAY_MEASURE {
+                            r.truncate(4);
+                            r.extend_from_slice(&[52, 2, 0x07, 2, 100, 0, 0, 0]);
+                            applied = true;
+                        }
+                    }
+                    _ => {
+                        // the delay object twice, in two headers
+                        if req[1] == fc::DELAY_MEASURE {
+                            r.extend_from_slice(&[52, 2, 0x07, 1, 0, 0]);
                             applied = true;
                         }
                     }
@@ -488,6 +508,10 @@ impl CaseSpace for Replies {
             }
             if transcript {
                 res.transcript.push(format!("step {step}: request {} reply {}", app::hex(req), app::hex(&r)));
+            }
+            if variant >= 5 {
+                // a round trip longer than the delay the reply reports
+                sim.advance(300);
             }
             sim.respond(&r);
             res.transitions += 1;
@@ -504,7 +528,7 @@ impl CaseSpace for Replies {
         }
         let ok = done[0].starts_with("Ok");
         if applied && ok {
-            let what = ["ideal", "unexpected-objects", "iin2-error", "need-time-still-set", "missing-delay-object"][variant];
+            let what = ["ideal", "unexpected-objects", "iin2-error", "need-time-still-set", "missing-delay-object", "two-delay-objects-in-one-header", "two-delay-headers"][variant];
             res.violation = Some(Violation::new("C18.F2", format!("success-reported-although-{what}:{proc_:?}"), done[0].clone()));
         } else if !applied && !ok {
             res.violation = Some(Violation::new("C18.L1", format!("failure-in-ideal-conditions:{proc_:?}"), done[0].clone()));
